@@ -30,6 +30,8 @@ def obligations():
              "shape; 'NA' overlay exactly for incomplete residues; the routine's code or its simplified image", 600),
          Obl("C15.python.arguments", "xh", "harness.c15_py", "dssp_arguments", enc, "same topologies x proline position x chain break",
              "per-residue N/C/O/CA indices (-1 when missing) found by NAME in any atom order, proline flags, chain indices, float32 coordinates", 600)]
+    o.append(Obl("C15.python.after_edit", "xh", "harness.c15_py", "dssp_after_edit", enc, "history: (compute_dssp,) rename a residue to PRO / rename a backbone atom away, compute_dssp again; counts unchanged",
+                 "the second call's index arrays, proline flags and 'NA' overlay follow the topology as it is now (nothing cached from the first call)", 300))
     H = "harness.c15_rules"
     D = "dssp.cpp:"
     for ch in ("one", "two"):
